@@ -33,18 +33,31 @@ def run(ctx):
     ctx.prove(["TsVerif.C17.Props"], "TsVerif/C17/Audit.lean")
     driver = ctx.build_driver("tsv-c17")
     explorer = ctx.cargo_bin("c17")
-    # optional: with hooks/C17-reexport.diff in /repo the explorer also calls the REAL private intersect_ranges
+    # optional: with hooks/C17-reexport.diff in /repo the explorer also calls the REAL private intersect_ranges.
+    # The source text is only a HINT (comments stripped, any whitespace/line wrapping between the tokens);
+    # what decides is whether the hook variant of the explorer BUILDS - if it does not, fall back cleanly.
+    hook_used = False
     try:
-        hook = "pub mod verif" in open(os.path.join(REPO, "crates/highlight/src/highlight.rs")).read()
+        src = open(os.path.join(REPO, "crates/highlight/src/highlight.rs")).read()
+        import re
+        stripped = re.sub(r"/\*.*?\*/", " ", src, flags=re.S)
+        stripped = re.sub(r"//[^\n]*", " ", stripped)
+        m = re.search(r"\bpub\s+mod\s+verif\b", stripped)
+        hint = bool(m and re.search(r"\bfn\s+intersect_ranges\b", stripped[m.end():]))
     except OSError:
-        hook = False
-    if hook and explorer:
+        hint = False
+    if hint and explorer:
         rc, o = sh(["cargo", "rustc", "--release", "--offline", "--bin", "c17", "--", "--cfg", "tsv_c17_hook"], cwd=HARNESS, timeout=3000)
-        ctx.notes.append("hook hooks/C17-reexport.diff present: explorer built with --cfg tsv_c17_hook (rc %d)" % rc)
-        if rc != 0:
-            ctx.oblige("build:harness:c17+hook", False, o[-800:])
+        if rc == 0:
+            hook_used = True
+            ctx.notes.append("hook hooks/C17-reexport.diff present: explorer built with --cfg tsv_c17_hook")
+        else:
+            ctx.notes.append("a `verif` module exists but the hook variant of the explorer does not build (different signature?): "
+                             "falling back to the build without the hook; " + o[-300:].replace("\n", " "))
+            explorer = ctx.cargo_bin("c17")
     else:
         ctx.notes.append("hook hooks/C17-reexport.diff not applied: intersect_ranges is tied through the harness's ranges + exact event streams only")
+    ctx.coverage["hook_C17_reexport_used"] = hook_used
     if not (explorer and os.path.exists(driver)):
         return ctx.finish()
     ops = os.path.join(ctx.workdir, "ops.txt")
